@@ -28,7 +28,7 @@ if REPO != "/repo":
     BUILD = os.path.join(VERIF, ".build", "alt-" + hashlib.sha1(REPO.encode()).hexdigest()[:10])
 LEAN = os.path.join(VERIF, "lean")
 HOOKS = os.path.join(VERIF, "hooks")
-EVID = os.path.join(VERIF, "evidence")
+EVID = os.environ.get("VERIF_EVIDENCE_DIR") or os.path.join(VERIF, "evidence")
 REPLAYS = os.path.join(VERIF, "replays")
 SCRATCH = os.path.join(VERIF, ".scratch")
 ALLOWED_AXIOMS = {"propext", "Classical.choice", "Quot.sound"}
